@@ -124,6 +124,20 @@ Qed.
 Lemma items_nonempty en props pc p : p <> PNil -> items en props pc p <> [].
 Proof. destruct p; [congruence | discriminate | discriminate | discriminate | discriminate]. Qed.
 
+(* the programs of this file have no exit repeat *)
+Lemma items_no_exit en props : forall p pc pe, exits_gt pe (items en props pc p) = true /\ exits_done (items en props pc p) = true.
+Proof.
+  induction p as [|s r IH|c a IHa r IHr|c a IHa eb IHe r IHr|c a IHa r IHr]; intros pc pe; cbn [items exits_gt exits_done].
+  - split; reflexivity.
+  - cbn [exits_gt_i exits_done_i andb]. apply IH.
+  - rewrite exits_gt_if, exits_done_if.
+    split; apply andb_true_intro; split; [apply (proj1 (IHa _ _)) | apply (proj1 (IHr _ _)) | apply (proj2 (IHa _ pe)) | apply (proj2 (IHr _ pe))].
+  - rewrite exits_gt_ife, exits_done_ife.
+    split; apply andb_true_intro; split; try (apply andb_true_intro; split);
+      [apply (proj1 (IHa _ _)) | apply (proj1 (IHe _ _)) | apply (proj1 (IHr _ _)) | apply (proj2 (IHa _ pe)) | apply (proj2 (IHe _ pe)) | apply (proj2 (IHr _ pe))].
+  - cbn [exits_gt_i exits_done_i andb]. apply IHr.
+Qed.
+
 Lemma items_wp wc en props : forall p pc, wf_p wc en p -> @wp wc pc (pc + zlen (compile_p p)) (items en props pc p).
 Proof.
   induction p as [|s r IH|c a IHa r IHr|c a IHa eb IHe r IHr|c a IHa r IHr]; intros pc Hwf.
@@ -156,7 +170,7 @@ Proof.
     change (zlen (jz (3 + zlen (compile_p a) + 2))) with 3. rewrite zlen_cons, zlen_cons, zlen_nil.
     pose proof (zlen_nonneg (compile_e c)). pose proof (zlen_nonneg (compile_p a)).
     set (pj := pc + zlen (compile_e c)). set (pe := pj + 3 + zlen (compile_p a)).
-    apply wp_while; [lia | subst pj; lia | apply Hcond | |].
+    apply wp_while; [lia | subst pj; lia | apply Hcond | | apply items_no_exit |].
     + apply (wp_lower (pj + 3)); [|lia]. apply IHa. exact Hwa.
     + apply (wp_lower (pe + 2)); [|lia].
       replace (pc + (zlen (compile_e c) + (3 + (zlen (compile_p a) + (1 + (1 + 0) + zlen (compile_p r))))))
@@ -406,7 +420,9 @@ Proof.
   assert (Hwp : wpw off (pexit + 1) (items en props off p ++ [IPlain exit_st])).
   { apply (wp_app off pexit); [apply items_wp; exact Hwf|].
     apply wp_plain; [reflexivity | cbn [pos_of exit_st]; lia | apply wp_nil; cbn [pos_of exit_st]; lia]. }
-  pose proof (detect_nest _ _ _ Hwp) as Hd. rewrite flats_app, fins_app in Hd. cbn [flats flat_i fins fin_i app] in Hd.
+  assert (Hxd : exits_done (items en props off p ++ [IPlain exit_st]) = true)
+    by (rewrite exits_done_app, (proj2 (items_no_exit en props p off 0)); reflexivity).
+  pose proof (detect_nest _ _ _ Hwp Hxd) as Hd. rewrite flats_app, fins_app in Hd. cbn [flats flat_i fins fin_i app] in Hd.
   exact Hd.
 Qed.
 Print Assumptions nest_handler.
